@@ -56,7 +56,7 @@ def work(job):
     rc, o = sh([TV, '-prop', prop + ',', '-repo', REPO, '-verif', vd, '-overlay', f'{f}={mf}'], 300, cwd='/verif')
     res['status'] = {0: 'UNDETECTED', 1: 'detected'}.get(rc, 'broken')
     if rc == 1:
-        res['rules'] = sorted(set(x.split(' ')[1].rstrip(':') for x in o.splitlines() if x.startswith('  ') and ' R-C' in x))[:4]
+        res['rules'] = sorted(set(x.split()[1].rstrip(':') for x in o.splitlines() if x.startswith('  ') and ' R-C' in x))[:4]
     if rc not in (0, 1):
         res['out'] = o[-400:]
     if rc == 0:
